@@ -143,6 +143,11 @@ Theorem C07_get_exact : forall (T : Type) (s : sorted T) (i : Z),
 Proof. exact @Get_exact. Qed.
 Print Assumptions C07_get_exact.
 
+(* Len is the number of elements. *)
+Theorem C07_len : forall (T : Type) (s : sorted T), Len s = Z.of_nat (length (String s)).
+Proof. exact (fun T s => eq_refl). Qed.
+Print Assumptions C07_len.
+
 (* RemoveAt deletes exactly the given position and panics exactly outside [0,Len). *)
 Theorem C07_removeat_exact : forall (T : Type) (zero : T) (eqb : T -> T -> bool)
   (sort_Stable : forall St, Interface St -> St -> result St),
